@@ -107,7 +107,7 @@ impl Prop for C13 {
         "one case = (family of equal/near-identical/unrelated/failing configurations + probe inputs, history of 5-25 builds through the cache) from (seed, run index); distinct = distinct hash of literal world+history; non-trivial = at least one cache hit after a different configuration was built in between AND at least one failing build"
     }
     fn runs(&self) -> (u64, u64) {
-        (40_000, 1_000_000)
+        (40_000, 1_200_000)
     }
     fn expected_probes(&self) -> &'static [&'static str] {
         &[
